@@ -779,20 +779,16 @@ impl C23 {
             }
             if let Some(i) = pick(rng, cands.len()) {
                 c.bump("make-optional", 0);
-                let (s, j, f9) = &cands[i];
-                if *f9 {
-                    // a fold-count filter inside a (now possibly missing) optional scope: known defect F-9
-                    c.bump("make-optional", 4);
-                } else {
-                    let mut q = q0.clone();
-                    make_optional(&mut q, &s.path, *j);
-                    if let Some(v) = compile_variant(w, q, args0.clone(), "make-optional", &mut c) {
-                        out.push(Planned {
-                            variant: v,
-                            link: Some(("make-optional".into(), "optional-drops-rows".into(), "sup".into(), BASE, None, vec![])),
-                            data: None,
-                        });
-                    }
+                // a fold-count filter below the edge is fine (it passes in a missing scope; formerly F-9)
+                let (s, j, _count_filter_below) = &cands[i];
+                let mut q = q0.clone();
+                make_optional(&mut q, &s.path, *j);
+                if let Some(v) = compile_variant(w, q, args0.clone(), "make-optional", &mut c) {
+                    out.push(Planned {
+                        variant: v,
+                        link: Some(("make-optional".into(), "optional-drops-rows".into(), "sup".into(), BASE, None, vec![])),
+                        data: None,
+                    });
                 }
             }
         }
@@ -1112,7 +1108,7 @@ impl Prop for C23 {
         "C23"
     }
     fn rule(&self) -> &'static str {
-        "per seed: generated worlds as for C01 (schemas x 2 datasets x ~10 type-directed queries accepted by the real frontend and argument validation; generator setting QueryKnobs::clean(), i.e. without the triggers of the known defects F-4/F-5/F-9/F-10). For every accepted query one randomly chosen applicable site per transformation: add-filter (a type-correct filter with a fresh variable drawn mostly from the property's values in the dataset, any operator, on a property outside folds: rows' <+ rows), add-filter-tag (=, !=, <, <=, >, >= against a type-compatible tag defined at the same or an enclosing vertex: rows' <+ rows), partition (outside folds and optional scopes, an operator with complement: rows(q) is a merge of rows(q+f) and rows(q+not f)), eq-oneof (`= $x` against `one_of [$x]` on any property, folds included, half of the operands in the other integer representation: equal rows), recurse-raise / recurse-lower (depth d -> d+1|d+2, d-1 outside folds: sublist), make-optional (a plain edge outside folds; skipped when a fold-count filter is below it: F-9); (query, dataset) pairs whose original result exceeds 1500 rows are not transformed (150 rows for recurse-raise), counted under skipped_known_defect of `(all)` / `recurse-raise`, rename-outputs / rename-tags (a permutation of the existing names or fresh names in reverse order), reorder-props (swap of two adjacent selections at least one of which is a property, anywhere: identical row sequence), reorder-edges (swap of two adjacent edges outside folds: equal multisets), param-edge (an edge with a declared parameter, plain or folded, rewritten to another parameter value plus `id @filter(<)` in a dataset whose adjacency for the original parameter tuple is the filtered adjacency of the new one: equal rows). Transformed queries rejected by the frontend (e.g. a tag used before its definition after a swap) are counted and skipped. Every original and transformed query is sent per dataset as (spec-exec ...) [model = Lean Spec] (queries with a fold-count filter >=/> on a variable additionally as (exec ...) [model = Interp over the real IR], so that a Spec mismatch can be classified as the known fold-limit truncation F-23/F-29); the relation is checked on the engine's rows. A case is non-trivial (nt:<kind>) when the left query returned at least one row on that dataset; nt:<kind>:strict when the transformation changed the row sequence."
+        "per seed: generated worlds as for C01 (schemas x 2 datasets x ~10 type-directed queries accepted by the real frontend and argument validation; generator setting QueryKnobs::clean(), i.e. without the triggers of the known defects F-4/F-5). For every accepted query one randomly chosen applicable site per transformation: add-filter (a type-correct filter with a fresh variable drawn mostly from the property's values in the dataset, any operator, on a property outside folds: rows' <+ rows), add-filter-tag (=, !=, <, <=, >, >= against a type-compatible tag defined at the same or an enclosing vertex: rows' <+ rows), partition (outside folds and optional scopes, an operator with complement: rows(q) is a merge of rows(q+f) and rows(q+not f)), eq-oneof (`= $x` against `one_of [$x]` on any property, folds included, half of the operands in the other integer representation: equal rows), recurse-raise / recurse-lower (depth d -> d+1|d+2, d-1 outside folds: sublist), make-optional (a plain edge outside folds, also above folds with count filters); (query, dataset) pairs whose original result exceeds 1500 rows are not transformed (150 rows for recurse-raise), counted under skipped_known_defect of `(all)` / `recurse-raise`, rename-outputs / rename-tags (a permutation of the existing names or fresh names in reverse order), reorder-props (swap of two adjacent selections at least one of which is a property, anywhere: identical row sequence), reorder-edges (swap of two adjacent edges outside folds: equal multisets), param-edge (an edge with a declared parameter, plain or folded, rewritten to another parameter value plus `id @filter(<)` in a dataset whose adjacency for the original parameter tuple is the filtered adjacency of the new one: equal rows). Transformed queries rejected by the frontend (e.g. a tag used before its definition after a swap) are counted and skipped. Every original and transformed query is sent per dataset as (spec-exec ...) [model = Lean Spec] (queries with a fold-count filter >=/> on a variable additionally as (exec ...) [model = Interp over the real IR], so that a Spec mismatch can be classified as the known fold-limit truncation F-23/F-29); the relation is checked on the engine's rows. A case is non-trivial (nt:<kind>) when the left query returned at least one row on that dataset; nt:<kind>:strict when the transformation changed the row sequence."
     }
     fn generate(&self, tier: Tier, rng: &mut Rng) -> Vec<Case> {
         let (worlds, stats) = generate_worlds(rng, &world_knobs(tier));
